@@ -134,6 +134,9 @@ func watchdogDisarm() {
 // ---------------------------------------------------------------------------------------------
 // shared process state
 
+// flagMu serialises use of the analyzer's process-global flag set.
+var flagMu sync.Mutex
+
 var (
 	envOnce sync.Once
 	theEnv  *gen.Env
